@@ -20,9 +20,6 @@ namespace BfeVerif.C42
 def toBV (b : UInt8) : BitVec 8 := BitVec.ofNat 8 b.toNat
 def ofBV (b : BitVec 8) : UInt8 := UInt8.ofNat b.toNat
 
-/-- `roundUp(a, b) = a + (b - a%b)%b` -/
-def roundUp (a b : Nat) : Nat := a + (b - a % b) % b
-
 def cbcDecrypt (blockSize macSize explicitIV : Nat) (unblock : Bytes → Bytes → Bytes)
     (mac : Nat → UInt8 → Bytes → Bytes) (seq : Nat) (typ : UInt8) (body : Bytes) : Dec :=
   if body.length % blockSize ≠ 0 ∨ body.length < roundUp (explicitIV + macSize + 1) blockSize then .fail body.length
